@@ -49,6 +49,16 @@ PROPS = {
         "assumptions": ["pubfuzz ops are predicate-only: the item-level String/Preview are not recomputed by the model; their building blocks (renderers, style, ansi, selection) are modelled and proved"],
         "shrink_budget": 3,
     },
+    "C07": {
+        "groups": [{"name": "C07", "quick": 400, "thorough": 12000, "workers": 16}],
+        "rule": "worlds over the TLS simulator: a thread of 1..8 notes (plain-text bodies containing URLs of other objects, so numbered links can be opened), a paged reply collection under the leaf (incl. an empty first page, comments answering another post, a missing collection), two actors on different hosts, multi-author posts (a foreign-host author turns the post into an error item), a paged outbox of 0..13 activities (some by another actor), an empty collection, a 404; started with Subcommand(open, <start>) and driven by 3..27 key tokens: j k g h l space c r a o p b, numbers followed by . / Enter / Esc / Backspace / another key (0, over-long numbers), :open <url>, :feed, bogus commands, arbitrary bytes; "
+                "after every token (once loads have settled, detected through the shim) compared: mode, buffer, highlighted item, the window of items around the cursor, presence of frontier/children, base point; non-trivial = at least three tokens; distinct by op content",
+        "trusted": ["crypto/tls, net; the Go scheduler (the check waits for quiescence; interleavings are C08's subject)",
+                    "url/json oracle tables as in C02; GetMarkup's link list for every body as an oracle table (numbering itself is C12)",
+                    "webfinger handles, local files and configured feeds are outside the generated worlds (modelled as error items / 'not a known feed')"],
+        "assumptions": ["Config.Safe (C19); no media links in the generated worlds (o/p/b are no-ops there; argv construction is C20)"],
+        "shrink_budget": 2,
+    },
     "C09": {
         "groups": [{"name": "C02", "quick": 1200, "thorough": 40000, "workers": 12}],
         "rule": "the same multi-host worlds as C02 (outboxes and reply collections mixing legitimate entries with other-actor activities, other-parent comments, foreign-host authors, missing ids/actors/reply targets, embedded vs referenced, failing fetches); "
@@ -195,6 +205,12 @@ MANIFEST_TEXT = {
         "design_ref": "DESIGN.md §5 C06",
         "note": "Trusted: Lean kernel; correspondence/fuzzing (testing); external parsers; Go runtime. Known finding: cubic render time under very deep block nesting.",
         "technique": "Lean 4 proof (panic-site theorems over Except-valued model functions) + differential correspondence and crash/hang observation under recover and watchdog",
+    },
+    "C07": {
+        "text": "Lean model of State.Update (every branch, in order) over the item model, with theorems over all worlds and all byte sequences: Update never panics from any state reachable from Subcommand(open, .) (history non-empty, selection buffer all digits), and each key does what the keymap says (j/k move within bounds, g returns to the opened item, h/l walk the history, space/c/r/a/./:open push exactly one page and drop the forward history, Esc/Backspace cancel, digits select). Tied to ui.go by driving the real ui.State against simulator worlds and comparing mode, buffer, cursor and the visible window after every key; every emitted frame must have the terminal's height and be terminal-safe.",
+        "design_ref": "DESIGN.md §5 C07",
+        "note": "Trusted: Lean kernel; correspondence check (testing); quiescence detection; oracle tables; TLS.",
+        "technique": "Lean 4 proof (invariant by induction over the key sequence; keymap corollaries) + differential correspondence of the real UI against the model after every key",
     },
     "C09": {
         "text": "Lean theorems: an outbox element is delivered as an activity iff construction succeeded, the owner has an id and the activity's resolved actor id equals it; a reply element is delivered as a post iff its resolved inReplyTo id equals the post's id; a post is built only if every resolved author shares its host; listings keep one entry per element in order, failures in place. Tied to pub by differential correspondence on listings over multi-host worlds with impostors; genuineness predicates are evaluated on every implementation output.",
